@@ -172,6 +172,22 @@ Theorem pretty_text_lines : forall E g, env_ok E -> graph_names_nl g ->
   split_lines (pretty_text E g) = pretty_lines E g.
 Proof. exact pretty_text_lines_lemma. Qed.
 
+(* COMPLETENESS of the pretty text: two graphs (same syntax-node environment) whose printed TEXTS are equal have
+   the same skeleton - so the text alone determines the number of nodes, every node's attribute names with the
+   Debug text of each value (name-sorted), every edge's sink in stored order and every edge's attributes.
+   Nothing of the graph that the text shows can differ between two graphs printed alike. *)
+Theorem pretty_text_determines_skel : forall E g1 g2,
+  env_ok E -> graph_names_nl g1 -> graph_names_nl g2 -> graph_names_ok g1 -> graph_names_ok g2 ->
+  pretty_text E g1 = pretty_text E g2 -> graph_skel E g1 = graph_skel E g2.
+Proof. exact pretty_text_determines_skel_lemma. Qed.
+
+Theorem pretty_skel_shape : forall E g1 g2, graph_skel E g1 = graph_skel E g2 ->
+  length g1 = length g2 /\
+  map (fun n => map fst (g_edges n)) g1 = map (fun n => map fst (g_edges n)) g2 /\
+  map (fun n => map (fun kv => (fst kv, debug_value E (snd kv))) (sort_alist (g_attrs n))) g1 =
+  map (fun n => map (fun kv => (fst kv, debug_value E (snd kv))) (sort_alist (g_attrs n))) g2.
+Proof. exact graph_skel_eq_shape. Qed.
+
 (* decimal rendering of indices is injective (node and edge lines identify their nodes) *)
 Theorem dec_injective : forall n m, dec n = dec m -> n = m.
 Proof. exact dec_inj. Qed.
@@ -207,6 +223,15 @@ Example ex_pretty :
   extract_lines (split_lines (pretty_text ex_E ex_g)) = Some (graph_skel ex_E ex_g) /\
   c14_verdict ex_E ex_g (encode_graph ex_g) true (pretty_text ex_E ex_g) false = 0.
 Proof. vm_compute. repeat split; reflexivity. Qed.
+(* the completeness theorem applies to ex_g (hypotheses: ex_names_ok) and separates it from a graph that differs
+   only in one attribute VALUE inside a nested set (3 replaced by 4) and from one with the two edges' sinks swapped *)
+Example ex_pretty_text_separates :
+  pretty_text ex_E ex_g <>
+  pretty_text ex_E [ {| g_attrs := [([110], VStr [97;34;10;233;768]); ([97], VSet (set_of_list [VInt 4; VInt 1; VList [VNull; VBool true; VSyn 0]]))];
+                        g_edges := g_edges (hd new_gnode ex_g) |}; new_gnode ] /\
+  pretty_text ex_E ex_g <>
+  pretty_text ex_E [ {| g_attrs := g_attrs (hd new_gnode ex_g); g_edges := [(0, []); (1, [([107], VGraph 1)])] |}; new_gnode ].
+Proof. split; intros H; vm_compute in H; discriminate. Qed.
 (* the verdict is not constantly 0: a dropped edge is seen by every component *)
 Example ex_verdict_detects :
   c14_verdict ex_E ex_g (encode_graph [ {| g_attrs := g_attrs (hd new_gnode ex_g); g_edges := [(0, [([107], VGraph 1)])] |}; new_gnode ])
